@@ -111,7 +111,7 @@ func runC19(c *mon.Ctx) {
 	mode := 0
 	fmt.Sscan(c.Config["sched"], &mode)
 	mon.InstallSched(mode, c.Seed)
-	nh := c.Pick(36, 400)
+	nh := c.Pick(36, 1200)
 	for h := 0; h < nh; h++ {
 		if !c.Mine(h) {
 			continue
